@@ -272,8 +272,23 @@ def wellformed(cls, sql):
     words = depth0_words(toks)
     if not words:
         return ("no_statement_keyword", sql)
-    if any(w in ("UNION", "INTERSECT", "EXCEPT", "MINUS") for w in words) or words[0] in ("CREATE", "DROP", "LOAD"):
-        return None  # compound statements / DDL: operands are bracketed or checked by their own builders
+    if words[0] in ("CREATE", "DROP", "LOAD"):
+        return None  # DDL is checked by its own builder's tests and by the engine sub-check
+    setops = [i for i, w in enumerate(words) if w in ("UNION", "INTERSECT", "EXCEPT", "MINUS")]
+    if setops:
+        # compound statement: the clauses of the set operation itself come after the last operand, each at most once and in order
+        tail = words[setops[-1] + 1:]
+        if lex.lex(sql, cls) and any(t.kind == "punct" and t.text == "(" for t in toks[:1]):
+            page = ["OFFSET", "FETCH"] if cls in ("mssql", "oracle") else ["LIMIT", "OFFSET"]
+            allowed = ["ALL", "ORDER"] + page
+            pos = 0
+            for w in tail:
+                if w not in allowed:
+                    continue
+                if w in allowed[:pos] or (w in allowed and allowed.index(w) < pos):
+                    return ("repeated_clause" if tail.count(w) > 1 else "clause_order", "%s in the tail of the set operation %r" % (w, sql))
+                pos = allowed.index(w) + 1
+        return None
     table = order_table(cls, words)
     if table is None:
         return ("fragment", "statement starts with %s: %r" % (words[0], sql))
@@ -328,7 +343,43 @@ def sqlite_parse(sql):
     return None
 
 
+def _operand_has_tail(steps):
+    return any(st_[0] in ("orderby", "limit", "offset", "slice", "__getitem__") for st_ in steps)
+
+
+def _limited_setop_operand(p):
+    """SQLite's compound-select grammar has no ORDER BY / LIMIT on an operand (that needs a subquery): no counterpart for such programs"""
+    def walk(prog_):
+        steps = prog_.get("steps", [])
+        for i, st_ in enumerate(steps):
+            if st_[0] in SETOPS:
+                if _operand_has_tail(steps[:i]):
+                    return True
+                for a in st_[1]:
+                    if isinstance(a, list) and a and a[0] == "q" and _operand_has_tail(a[1].get("steps", [])):
+                        return True
+        found = False
+
+        def rec(n):
+            nonlocal found
+            if isinstance(n, dict):
+                if "steps" in n and n is not prog_ and walk(n):
+                    found = True
+                for v in n.values():
+                    rec(v)
+            elif isinstance(n, list):
+                for v in n:
+                    rec(v)
+
+        rec(steps)
+        return found
+
+    return walk(p)
+
+
 def uses_unsupported(p):
+    if _limited_setop_operand(p):
+        return True
     txt = json.dumps(p["steps"])
     if any('"%s"' % m in txt for m in SQLITE_UNSUPPORTED):
         return True
